@@ -131,7 +131,9 @@ func walkSDRs(ctx context.Context, s Session) (SDRRepository, error) {
 				return nil, fmt.Errorf("packet is missing Full Sensor Record layer: %v",
 					getSDRCmd)
 			}
-			repo[getSDRCmd.Req.RecordID] = fsrLayer.(*ipmi.FullSensorRecord)
+			// use the ID in the header rather than the request, which is
+			// RecordIDFirst for the first record
+			repo[header.ID] = fsrLayer.(*ipmi.FullSensorRecord)
 		}
 
 		getSDRCmd.Req.RecordID = getSDRCmd.Rsp.Next
